@@ -65,6 +65,10 @@ type Document struct {
 	pointerCache sync.Map // map[string]Node
 
 	families FamilyNodes
+
+	// familiesMutex guards families, which is filled lazily by readers that
+	// may run concurrently (see IndividualNodes.Compare).
+	familiesMutex sync.Mutex
 }
 
 // String will render the entire GEDCOM document.
@@ -133,6 +137,9 @@ func (doc *Document) NodeByPointer(ptr string) Node {
 
 // Families returns the family entities in the document.
 func (doc *Document) Families() (families FamilyNodes) {
+	doc.familiesMutex.Lock()
+	defer doc.familiesMutex.Unlock()
+
 	if doc.families != nil {
 		return doc.families
 	}
@@ -211,7 +218,9 @@ func (doc *Document) addPointerToCache(node Node) {
 	// Clear cache.
 	switch node.Tag() {
 	case TagFamily:
+		doc.familiesMutex.Lock()
 		doc.families = nil
+		doc.familiesMutex.Unlock()
 	}
 }
 
